@@ -38,7 +38,7 @@ META = {
 }
 
 BASE = "http://test.invalid"
-EST_KINDS = ["endpoint-event", "bare-messages", "bare-mcp", "query-only", "absolute-url", "status-401", "status-404", "status-500", "connect-error", "empty-stream", "comments-forever", "endpoint-crlf"]
+EST_KINDS = ["endpoint-event", "bare-messages", "bare-mcp", "query-only", "absolute-url", "absolute-url:port80", "absolute-url:other-host", "absolute-url:https", "absolute-url:port8080", "absolute-url:upper-host", "absolute-url:userinfo", "status-401", "status-404", "status-500", "connect-error", "empty-stream", "comments-forever", "endpoint-crlf"]
 MODES = ["200-body", "202-then-event", "event-then-202", "202-silence", "status-400-json", "status-500-text", "post-raises", "200-body-error", "202-then-error-event", "error-event-then-202", "post-raises-oserror", "post-raises-runtime", "200-text-body", "200-empty-body", "200-json-scalar", "200-json-emptyobj", "200-json-nonmessage", "200-json-array", "200-json-null"]
 
 
@@ -55,6 +55,15 @@ def endpoint_bytes(kind: str) -> Tuple[bytes, str]:
         return b"event: endpoint\ndata: session_id=q4\n\n", f"{BASE}/messages/?session_id=q4"
     if kind == "absolute-url":
         return b"event: endpoint\ndata: http://test.invalid/custom/post?x=1\n\n", "http://test.invalid/custom/post?x=1"
+    # absolute URLs whose origin is not textually the configured one: the default port spelt out, a dedicated message
+    # host, https, another port, upper-case host - the server says where to POST, and that is where the POSTs must go
+    if kind.startswith("absolute-url:"):
+        url = {"port80": "http://test.invalid:80/messages/?session_id=p80", "other-host": "http://rpc.test.invalid/messages/?session_id=oh",
+               "https": "https://test.invalid/messages/?session_id=tls", "port8080": "http://test.invalid:8080/mcp/messages/?s=1",
+               "upper-host": "http://TEST.invalid/messages/?session_id=up", "userinfo": "http://u@test.invalid/messages/?session_id=ui"}[kind.split(":", 1)[1]]
+        # (httpx normalises what it sends: the default port is dropped, the host lower-cased)
+        sent = url.replace("http://test.invalid:80/", "http://test.invalid/").replace("http://TEST.invalid/", "http://test.invalid/")
+        return b"event: endpoint\ndata: " + url.encode() + b"\n\n", sent
     raise ValueError(kind)
 
 
@@ -114,7 +123,7 @@ def check(case: Dict[str, Any]) -> Outcome:
         return typed
 
     by_id = {json.dumps(r["id"]): r for r in reqs}
-    will_announce = est["kind"] in ("endpoint-event", "bare-messages", "bare-mcp", "query-only", "absolute-url", "endpoint-crlf", "delayed")
+    will_announce = est["kind"] in ("endpoint-event", "bare-messages", "bare-mcp", "query-only", "absolute-url", "endpoint-crlf", "delayed") or est["kind"].startswith("absolute-url:")
     delay = est.get("delay", 0.0)
     expect_url = endpoint_bytes(est["kind"])[1] if will_announce else None
 
